@@ -20,7 +20,7 @@ from gen import stepmachine
 PIPE_CAP = 65536          # Linux pipe capacity (16 pages); sizes near the boundary are never generated
 HANG_FIRST_LOOK = 6.0     # seconds before the first look at a run that has not exited
 HANG_QUIET = 3.0          # the trace must not have grown for this long before a hang is believed
-HANG_BOUND = 90.0         # generous wall-clock bound for pipelines whose commands take < 1 s
+HANG_BOUND = 60.0     # generous wall-clock bound for pipelines whose commands take < 1 s (a run is 0.3 s on an idle machine)
 
 TRUSTED = [
     "Coq 8.16.1 kernel, coqc; vm_compute for the _refuted witnesses and Examples; no native_compute",
@@ -331,7 +331,7 @@ def _one_run(env, spec, rr, root, base, e, certify, bound):
     errf = open(os.path.join(base, "stderr"), "wb")
     proc = subprocess.Popen([env.xvc, "-c", "pipeline.process_pool_size=%d" % spec["pool"], "pipeline", "run"],
                             cwd=root, env=e, stdout=outf, stderr=errf, stdin=subprocess.DEVNULL, start_new_session=True)
-    rr.hung, rr.certified, rr.uncertified_timeout, rr.dead_thread = False, False, False, False
+    rr.hung, rr.certified, rr.uncertified_timeout, rr.dead_thread, rr.mismatch, rr.variant = False, False, False, False, False, None
     next_look = HANG_FIRST_LOOK
     while True:
         try:
@@ -354,14 +354,23 @@ def _one_run(env, spec, rr, root, base, e, certify, bound):
                     rr.hung, rr.dead_thread = True, True
                     _kill_group(proc)
                     break
-                if certify(spec, lines):
-                    rr.hung, rr.certified = True, True
+                c = certify(spec, lines)
+                if c:
+                    rr.hung, rr.certified, rr.mismatch = True, c is True, c == "mismatch"
                     _kill_group(proc)
                     break
         if el >= bound:
             rr.hung = True
             lines = read_lines(trace)
-            rr.certified = bool(certify and certify(spec, lines))
+            rr.certified = bool(certify and certify(spec, lines) is True)
+            if not rr.certified and certify is not None and hasattr(certify, "variants"):
+                try:
+                    quiet = time.time() - os.path.getmtime(trace)
+                except OSError:
+                    quiet = 0
+                if quiet >= bound / 3:
+                    rr.variant = certify.variants(spec, lines)
+                    rr.certified = rr.variant is not None
             rr.dead_thread = dead_without_verdict(lines)
             rr.uncertified_timeout = not rr.certified and not rr.dead_thread
             _kill_group(proc)
@@ -651,13 +660,39 @@ def model_lines(env, lines, shards=4):
 
 
 def make_certify(env):
+    """certify(spec, trace lines) -> True: the model certifies the traced state as stuck;
+    "mismatch": the model rejects the trace (or the pipeline) outright, so the run is a
+    correspondence failure whatever happens next and need not be waited for; False otherwise."""
     def certify(spec, lines):
         try:
             info, line = accept_line(env, spec, lines)
             out = model_lines(env, [line], shards=1)
-            return bool(out) and out[0].startswith("ACCEPT") and " stuck=1 " in out[0] + " "
+            if out and out[0].startswith("ACCEPT"):
+                return " stuck=1 " in out[0] + " "
+            if out and (out[0].startswith("NOINIT") or out[0].startswith("REJECT")) and info.get("pool") is not None:
+                return "mismatch"
+            return False
         except Exception:
             return False
+
+    def variants(spec, lines):
+        """at the end of the bound only: does the model with ONE repair switched off accept the trace
+        and certify it as stuck?  (the code then behaves like the tree before that repair)"""
+        base = env.fixbits()
+        for name, bits in (("fixed_P12", [2]), ("fixed_P14", [4]), ("fix_shared_pool/fix_atomic_acquire", [0, 1]), ("fixed_P13", [3])):
+            fx = "".join("0" if i in bits else c for i, c in enumerate(base))
+            if fx == base:
+                continue
+            try:
+                info, toks = trace_events(env, spec, lines)
+                line = "sched-accept %s | %s" % (model_cfg(env, spec, info["verdicts"], fix=fx), " ".join(toks))
+                out = model_lines(env, [line], shards=1)
+                if out and out[0].startswith("ACCEPT") and " stuck=1 " in out[0] + " ":
+                    return name
+            except Exception:
+                pass
+        return None
+    certify.variants = variants
     return certify
 
 
@@ -757,7 +792,9 @@ def oracle_c11(spec, rr, info):
                 n, info["last_iter"].get(n), "panic" if info["ended"][n] else "error return"), "no-verdict"))
     if rr.hung and rr.certified:
         waiting = [n for n in names if not is_terminal(info["last_bull"].get(n))]
-        bad.append(("`xvc pipeline run` does not terminate: steps %s never get a verdict (the model certifies the last traced state as deadlocked)" % ",".join(waiting), "hang"))
+        how = "the model certifies the last traced state as deadlocked" if not getattr(rr, "variant", None) else \
+              "the trace is accepted and certified deadlocked by the model with %s switched OFF: the code behaves as before that repair" % rr.variant
+        bad.append(("`xvc pipeline run` does not terminate: steps %s never get a verdict (%s)" % (",".join(waiting), how), "hang"))
     elif not rr.hung:
         for n in names:
             if not is_terminal(info["last_bull"].get(n)) and n not in info["ended"]:
@@ -1039,6 +1076,16 @@ def drive(chk, env, prop, specs, nontrivial, max_reports=3):
     shrinks and reports.  nontrivial(spec, rr, info) -> bool."""
     t0 = time.time()
     rrs = run_cases(env, specs)
+    # a run that neither ended nor is certified stuck within the bound may only be a slow machine:
+    # it is repeated alone with twice the bound before anything is said about it
+    retried = 0
+    for k, rr in enumerate(rrs):
+        if rr.uncertified_timeout and retried < 2:
+            retried += 1
+            log("uncertified timeout, repeating alone:", json.dumps(strip_spec(rr.spec))[:300])
+            again = run_spec(env, rr.spec.get("_origin") or rr.spec, certify=make_certify(env), bound=2 * HANG_BOUND)
+            pick = [a for a in again if a.spec.get("label") == rr.spec.get("label")] or again[-1:]
+            rrs[k] = pick[0]
     specs = [rr.spec for rr in rrs]          # one entry per real run (a spec with a second run gives two)
     t1 = time.time()
     infos, outs, errs, infolines = validate_traces(env, specs, rrs)
@@ -1076,11 +1123,20 @@ def drive(chk, env, prop, specs, nontrivial, max_reports=3):
             ps.append("`xvc pipeline run` did not end within %ds but the model does not certify the traced state as stuck: %s" % (HANG_BOUND, out[:200]))
         if ps and not (k_garbled(sp) and not env.p13_fixed):
             corr.append((sp, rr, ps, out))
-    # oracle failures: shrink, classify, report
-    seen = set()
-    for sp, rr, js in failures:
-        if len(seen) >= max_reports:
-            break
+    # oracle failures: shrink, classify, report.  Failures outside every known class come first and
+    # are never crowded out by reproductions of an open finding (one report per known class).
+    def pre_class(js):
+        ks = {k for _, k in js}
+        return next(iter(ks)) if len(ks) == 1 and None not in ks else None
+    unknown = [f for f in failures if pre_class(f[2]) is None]
+    known = [f for f in failures if pre_class(f[2]) is not None]
+    reported_unknown, reported_classes = 0, set()
+    for sp, rr, js in unknown + known:
+        pk = pre_class(js)
+        if pk is None and reported_unknown >= max_reports:
+            continue
+        if pk is not None and pk in reported_classes:
+            continue
         sp = sp.get("_origin") or sp        # a failing second run is replayed / shrunk as the two-run scenario
         cur, cur_js = sp, js
         try:
@@ -1090,16 +1146,14 @@ def drive(chk, env, prop, specs, nontrivial, max_reports=3):
             rr2, info2, js2 = rerun_judge(env, prop, small)
             if js2:
                 cur, cur_js, rr = small, js2, rr2
-            klass_spec = rr2.spec if js2 else None
         except Exception as e:
             log("shrink failed: %r" % (e,))
-        what, klass = cur_js[0]
-        if all(k == cur_js[0][1] for _, k in cur_js) is False:
-            klass = None
-        key = (what.split(":")[0][:60], klass)
-        if key in seen and klass is not None:
-            continue
-        seen.add(key)
+        what = cur_js[0][0]
+        klass = pre_class(cur_js)           # decided on the shrunk input
+        if klass is None:
+            reported_unknown += 1
+        else:
+            reported_classes.add(klass)
         chk.fail("oracle", what, {"input": strip_spec(cur), "original_input": strip_spec(sp), "journal": rr.journal,
                                   "kind": "impl-history", "all": [w for w, _ in cur_js]}, name="run", klass=klass)
     for sp, rr, ps, out in corr[:max_reports]:
